@@ -30,6 +30,7 @@ static int g_nt, g_nes;
 static ABT_xstream g_xs[4];
 static ABT_pool g_pool[4];
 static volatile int g_release;
+static int g_guard;
 #define GUARD 64
 static void body(void *arg)
 {
@@ -55,10 +56,12 @@ static void body(void *arg)
     t->sp_mod16 = (int)((sp + 16) % 16);
     /* touch everything below this frame that was promised to us */
     int ok = 1;
+    /* with a guard page the lowest page(s) of the stack are not usable */
+    uintptr_t lo = t->lo + (g_guard ? 2 * 4096 : 0);
     if (t->in_range) {
-        for (volatile char *p = (volatile char *)t->lo; (uintptr_t)p + 8192 < t->local; p += 61)
+        for (volatile char *p = (volatile char *)lo; (uintptr_t)p + 8192 < t->local; p += 61)
             *p = (char)(t->id * 7 + 1);
-        for (volatile char *p = (volatile char *)t->lo; (uintptr_t)p + 8192 < t->local; p += 61)
+        for (volatile char *p = (volatile char *)lo; (uintptr_t)p + 8192 < t->local; p += 61)
             ok &= (*p == (char)(t->id * 7 + 1));
     }
     t->touched_ok = ok;
@@ -71,7 +74,7 @@ static void body(void *arg)
     /* nobody scribbled over our part meanwhile */
     ok = 1;
     if (t->in_range)
-        for (volatile char *p = (volatile char *)t->lo; (uintptr_t)p + 8192 < t->local; p += 61)
+        for (volatile char *p = (volatile char *)lo; (uintptr_t)p + 8192 < t->local; p += 61)
             ok &= (*p == (char)(t->id * 7 + 1));
     t->touched_ok &= ok;
     t->done = 1;
@@ -367,6 +370,12 @@ static void scenario(const char *name, uint64_t seed)
         unsetenv("ABT_MEM_STACK_PAGE_SIZE");
         unsetenv("ABT_MEM_PAGE_SIZE");
     }
+    int guard = (int)opt_long("guard", 0);
+    g_guard = guard;
+    if (guard)
+        setenv("ABT_STACK_OVERFLOW_CHECK", guard == 2 ? "mprotect_strict" : "mprotect", 1);
+    else
+        unsetenv("ABT_STACK_OVERFLOW_CHECK");
     abtv_ledger_reset();
     abtv_ledger_track(1);
     CHK(ABT_init(0, NULL));
@@ -409,6 +418,8 @@ static void scenario(const char *name, uint64_t seed)
                         : c == 1 ? (size_t)(8192 + 8 * rnd(8192)) : (size_t)(16384 + rnd(200000));
         if (desc && rnd(4))
             t->user = 0, t->req = 16384; /* default size: the stack comes from the memory pool */
+        if (g_guard && t->req < 40960)
+            t->req += 32768; /* the guard page(s) are taken from the stack */
         if (t->user)
             t->req &= ~(size_t)7;
         t->creator = rnd(3);
@@ -485,6 +496,8 @@ static void scenario(const char *name, uint64_t seed)
                 guard_ok &= (*p == 0x5a);
             for (char *p = t->ustack + t->req; p < t->ubuf + t->req + 2 * GUARD + 64; p++)
                 guard_ok &= (*p == 0x5a);
+            /* the stack is the user's again: every byte of it must be writable */
+            memset(t->ustack, 0x33, t->req);
             free(t->ubuf);
         }
         EV("\"e\":\"StackEnd\",\"u\":%d,\"touched\":%d,\"guard\":%d,\"done\":%d", i, t->touched_ok, guard_ok, t->done);
